@@ -220,6 +220,7 @@ JudgeModel(e) ==
 
 Judge(e) ==
   IF Has(e, "invalid") /\ e.invalid THEN Bad("TOOLERR-invalid-program")
+  ELSE IF Has(e, "obs_panic") THEN Bad("observation-panic")     \* a public accessor panicked while observing
   ELSE IF Has(e, "when") /\ e.skipped THEN (IF e.when = lastcmp THEN Bad("control-flow") ELSE J("", S, dig))
   ELSE IF Has(e, "when") /\ e.when # lastcmp THEN Bad("control-flow")
   ELSE IF e.op = "leaf" THEN
